@@ -24,6 +24,8 @@ TEXT = {
          "Round trip, monotonicity, derivatives of the transforms; wrapped functions with analytic derivatives checked for value, feasibility of the back-transformed point, chain rule, parameters right after wrapping, placebo pass-through; exhaustive lattice of the ten configurations x bounds x start positions x wrapper kinds. Exploration."),
  "C12": ("stateful generated update histories on polynomial functions with analytic derivatives; exhaustive configuration lattice; step-halving metamorphic law",
          "Transparency (bitwise parameters, value) after every update through all six entry points; derivatives vs analytic ones within rounding/truncation bounds by stencil class; convergence order by halving the step; delegation for non-selected variables. Exploration."),
+ "C15": ("bounded-exhaustive enumeration of all labelled rooted trees up to 6 (quick) / 7 (thorough) nodes and all small DAGs + stateful generated edit histories vs a by-definition reference",
+         "Every rooted labelled tree (Pruefer sequence x root) with all roots, all node pairs and node sets is compared with a reference tree for validity, father/sons/branches/leaves-under/subtree/paths/MRCA, re-rooting (edge ids and attached objects kept) and un-rooting; all forward-edge DAGs on <= 5 nodes plus cyclic variants; edit histories with validity asked or not asked between edits. Exploration; exhaustive up to the stated node counts."),
  "C16": ("coverage-guided fuzzing (libFuzzer, ASan+UBSan) of 14 entry-point groups with structure-aware decoding, dictionary, seeds and in-target semantic oracles",
          "One libFuzzer target per group of parsing entry points; bytes are decoded into option flags / characters and subject strings; bpp::Exception is a clean rejection, any other exception type, sanitizer report, division trap, malloc/rss limit or confirmed timeout is a violation; cheap semantic oracles (token/cursor consistency, table shape, split re-concatenation) run inside the targets. Exploration: ~1e5 executions per target in the quick tier, ~5e7 in the thorough tier."),
  "C18": ("seeded statistical property tests (Kolmogorov-Smirnov / chi-square at 1e-9 against the library's own cdfs) + structural laws + exhaustive small margins",
